@@ -33,6 +33,9 @@ func CleanSet(s Set) Set {
 func (s Set) ValidateWithContext(ctx context.Context) error {
 	combos := make(map[cbc.Code]cbc.Key)
 	for i, c := range s {
+		if c == nil {
+			continue
+		}
 		if _, ok := combos[c.Category]; ok {
 			return validation.Errors{
 				fmt.Sprintf("%d", i): fmt.Errorf("category %v is duplicated", c.Category),
@@ -51,8 +54,14 @@ func (s Set) ValidateWithContext(ctx context.Context) error {
 // Equals returns true if the sets match, regardless of order.
 func (s Set) Equals(s2 Set) bool {
 	for _, a := range s {
+		if a == nil {
+			continue
+		}
 		match := false
 		for _, b := range s2 {
+			if b == nil {
+				continue
+			}
 			if a.Category == b.Category && a.Rate == b.Rate && a.Country == b.Country {
 				match = true
 			}
@@ -69,6 +78,9 @@ func (s Set) Equals(s2 Set) bool {
 // Get the Rate key for the given category
 func (s Set) Get(cat cbc.Code) *Combo {
 	for _, c := range s {
+		if c == nil {
+			continue
+		}
 		if c.Category == cat {
 			return c
 		}
@@ -79,6 +91,9 @@ func (s Set) Get(cat cbc.Code) *Combo {
 // Rate returns the rate from the matching category, if set.
 func (s Set) Rate(cat cbc.Code) cbc.Key {
 	for _, c := range s {
+		if c == nil {
+			continue
+		}
 		if c.Category == cat {
 			return c.Rate
 		}
@@ -116,6 +131,9 @@ func (sv *setValidation) Validate(value interface{}) error {
 	}
 	if sv.cat != "" {
 		for i, c := range s {
+			if c == nil {
+				continue
+			}
 			if c.Category == sv.cat {
 				err := validation.ValidateStruct(c, sv.comboFields...)
 				if err != nil {
